@@ -129,7 +129,7 @@ func clockRace(cr *ClockRace) string {
 
 func TestMain(m *testing.M) {
 	h.Setup("C11",
-		"generated workloads: 3-6 shared Regexps from a pool of 10 (bool-only program, balancing groups, stack limit 64, 30 ms timeout on a catastrophic pattern, RightToLeft, replacement cache of 2, ...) and 150-600 calls over 13 entry points (bool, find, iterate, find-all, Replace with more distinct replacements than the cache holds, ReplaceFunc, Split, adapter, timed, stack-limited) with inputs crossing the pooled-buffer size classes, assigned to G in {2,4,8,32} goroutines under GOMAXPROCS in {1,2,4,16} with generated runtime.Gosched points; 1 workload in 2 starts with 20-60 clock-race bursts (timeout clock stopped, one match with a 1.2-1.5 s timeout and 2-6 with 5-20 ms timeouts released by a spin barrier; afterwards the clock must be set to run past the long deadline - read through a verif hook -; in 1 of 4 of these workloads the long match is catastrophic and must end with a timeout error, neither early nor never); expected results are computed sequentially on fresh Regexps first; every concurrent result must equal its expected value; the binary is built with -race and any race report fails the run; one evaluation = one call executed concurrently; non-trivial = a workload in which at least two goroutines used the same Regexp and at least one call of each family (bool, find, find-all, replace, split, adapter) ran; distinct = hash of the workload",
+		"generated workloads: 3-6 shared Regexps from a pool of 11 (bool-only program, balancing groups, stack limit 64, 30 ms timeout on a catastrophic pattern, RightToLeft, replacement cache of 2, ...) and 150-600 calls over 13 entry points (bool, find, iterate, find-all, Replace with more distinct replacements than the cache holds, ReplaceFunc, Split, adapter, timed, stack-limited) with inputs crossing the pooled-buffer size classes, assigned to G in {2,4,8,32} goroutines under GOMAXPROCS in {1,2,4,16} with generated runtime.Gosched points; 1 workload in 2 starts with 20-60 clock-race bursts (timeout clock stopped, one match with a 1.2-1.5 s timeout and 2-6 with 5-20 ms timeouts released by a spin barrier; afterwards the clock must be set to run past the long deadline - read through a verif hook -; in 1 of 4 of these workloads the long match is catastrophic and must end with a timeout error, neither early nor never); expected results are computed sequentially on fresh Regexps first; every concurrent result must equal its expected value; the binary is built with -race and any race report fails the run; one evaluation = one call executed concurrently; non-trivial = a workload in which at least two goroutines used the same Regexp and at least one call of each family (bool, find, find-all, replace, split, adapter) ran; distinct = hash of the workload",
 		map[string]float64{"shared-by-2+": 0.9, "all-families": 0.8},
 		"interleavings are sampled by the Go scheduler under stress, not enumerated; the race detector only reports races on executions that happen",
 		"a concurrent timeout on the 30 ms-timeout Regexp where the sequential run had none is tolerated and counted (timeouts are wall-clock and descheduling is not the engine's fault)")
@@ -138,7 +138,7 @@ func TestMain(m *testing.M) {
 
 func gen1(t *rapid.T) Case {
 	var c Case
-	perm := rapid.Permutation([]int{0, 1, 2, 3, 4, 5, 6, 7, 8, 9}).Draw(t, "specs")
+	perm := rapid.Permutation([]int{0, 1, 2, 3, 4, 5, 6, 7, 8, 9, 10}).Draw(t, "specs")
 	c.Specs = perm[:rapid.IntRange(3, 6).Draw(t, "nspecs")]
 	c.G = rapid.SampledFrom([]int{2, 4, 8, 32}).Draw(t, "G")
 	c.Procs = rapid.SampledFrom([]int{1, 2, 4, 16}).Draw(t, "procs")
@@ -180,6 +180,28 @@ func gen1(t *rapid.T) Case {
 		c.Calls = append(c.Calls, cl)
 		c.Owner = append(c.Owner, rapid.IntRange(0, c.G-1).Draw(t, "owner"))
 		c.Yield = append(c.Yield, rapid.IntRange(0, 3).Draw(t, "yield") == 0)
+	}
+	if rapid.Bool().Draw(t, "storm") {
+		// every goroutine issues the same Replace (same Regexp, same replacement string, same input) several
+		// times: whatever is cached per replacement string is read by all of them at once
+		re := rapid.IntRange(0, len(c.Specs)-1).Draw(t, "stormre")
+		for i, sp := range c.Specs {
+			if calls.Pool[sp].Name == "rtl" && rapid.Bool().Draw(t, "stormrtl") {
+				re = i // the right-to-left replace path is a separate piece of code
+			}
+		}
+		if calls.Pool[c.Specs[re]].TimeoutMs == 0 {
+			rep := rapid.SampledFrom([]int{3, 5, 10, 13, 16}).Draw(t, "stormrep") // replacements with several pieces
+			core := rapid.SampledFrom([]string{"12a 345b 6c", "a1 b2 c3 d4", "ab ab (()) 1x"}).Draw(t, "stormcore")
+			k := rapid.IntRange(4, 10).Draw(t, "stormk")
+			for g := 0; g < c.G; g++ {
+				for j := 0; j < k; j++ {
+					c.Calls = append(c.Calls, calls.Call{Re: re, Kind: "Replace", Core: core, Rep: rep})
+					c.Owner = append(c.Owner, g)
+					c.Yield = append(c.Yield, false)
+				}
+			}
+		}
 	}
 	return c
 }
